@@ -771,7 +771,14 @@ pub fn c18_strategy(transports: BoxedStrategy<Transport>) -> BoxedStrategy<ConvC
                 None => Framing::Length { n: len },
             };
             let mut conv = Conversation::default();
-            let conn = keepalive_for(version, followers == 0);
+            let mut conn = keepalive_for(version, followers == 0);
+            // an upgrade offer the application ignores (e.g. h2c): the request is handled as plain
+            // HTTP, and its expectation is an expectation like any other
+            // (only where the body is asked for: an upgrade request answered without reading ends the
+            // connection at once, and a client still sending its body then sees a broken pipe)
+            if followers == 0 && matches!(framing, Framing::Length { .. }) && version == "HTTP/1.1" && (mask >> 23) % 6 == 0 && matches!(p.read, ReadPlan::ToEof { .. }) {
+                conn = Some(["Upgrade, HTTP2-Settings", "upgrade", "keep-alive, Upgrade"][(mask as usize >> 26) % 3].to_string());
+            }
             conv.reqs.push(build_req(0, "POST".into(), "/upload".into(), version, headers, framing, None, mask as usize, mask, conn, expect));
             for i in 0..followers {
                 conv.reqs.push(sentinel(1 + i as u32));
